@@ -626,6 +626,7 @@ def r_every_timing_admitted(ctx):
     solver (R-STREAM-EXACT, shared with C05)"""
     from rules import completeness
     completeness.r_stream_exact(ctx)
+    completeness.r_stream_groups_decided(ctx)
 
 
 def r_enumerated_are_valid(ctx):
